@@ -1314,6 +1314,8 @@ func main() {
 	if os.Getenv("C19_ONLY") == "methods" { // development aid
 		tr.Put(methodsAttack(0))
 		tr.Put(didcommAttack(0))
+		tr.Put(controllerAttack(0))
+
 		return
 	}
 
@@ -1444,5 +1446,6 @@ func main() {
 	for i := 0; i < 1+nAttack/5; i++ {
 		tr.Put(methodsAttack(i))
 		tr.Put(didcommAttack(i))
+		tr.Put(controllerAttack(i))
 	}
 }
